@@ -382,7 +382,18 @@ def _run_http_producer_init(
     """
     resp_buf = BytesIO()
     if info.header_type is not None:
-        _write_stream_header(resp_buf, result.header, app._server.external_config, sink=sink, method_name=method_name)
+        try:
+            _write_stream_header(
+                resp_buf, result.header, app._server.external_config, sink=sink, method_name=method_name
+            )
+        except Exception as exc:
+            # Same shape as the exchange init below: a header that cannot be
+            # written fails the call, so the record must say so.
+            outcome.status = "error"
+            outcome.error_type = _log_method_error(app._server.protocol_name, method_name, app._server.server_id, exc)
+            outcome.error_message = _truncate_error_message(exc)
+            outcome.http_status = HTTPStatus.INTERNAL_SERVER_ERROR
+            raise _RpcHttpError(exc, status_code=outcome.http_status) from exc
     # Over HTTP a producer's first turn runs INSIDE the /init request, so the init
     # request's Arrow metadata IS the first tick's metadata — surface it to the
     # producer's first process() call. Without this the first turn sees the empty
